@@ -165,6 +165,17 @@ def extract(repo):
     g['HASH_LENGTH'] = const(it, 'HASH_LENGTH')
     bc = read(repo, 'src/blob/index/bptree/core.rs')
     g['BLOCK_SIZE'] = const(bc, 'BLOCK_SIZE')
+    # arithmetic of the tree layout, translated as functions
+    sz = read(repo, 'src/blob/index/bptree/serializer.rs')
+    nd = read(repo, 'src/blob/index/bptree/node.rs')
+    meta_call = {r"NodeMeta::serialized_size_default\(\)(?:\?|\s*\.expect\([^)]*\))": 'node_meta_size'}
+    g['fn_max_nonleaf_node_capacity'] = arith_fn(sz, 'max_nonleaf_node_capacity', 'in bptree/serializer.rs',
+                                                 extern=meta_call, consts=('BLOCK_SIZE',))
+    g['fn_node_serialized_size_with_keys'] = arith_fn(nd, 'serialized_size_with_keys', 'in bptree/node.rs', extern=meta_call)
+    mm = re.search(r"let\s+min_amount\s*=\s*([^;]+);", fn_body(sz, 'build_tree', 'in bptree/serializer.rs'))
+    if not mm:
+        raise Fail('build_tree: `let min_amount = ..` not found')
+    g['fn_min_amount'] = LeanFn(['max_amount'], [], arith_expr(mm.group(1), {'max_amount'}, 'build_tree'))
     bm = read(repo, 'src/blob/index/bptree/meta.rs')
     g['layout_TreeMeta'] = struct_fields(bm, 'TreeMeta')
     g['layout_NodeMeta'] = struct_fields(bm, 'NodeMeta')
@@ -253,6 +264,85 @@ def extract(repo):
     return g
 
 
+class LeanFn:
+    """a Rust arithmetic function translated to a Lean definition over Nat"""
+    def __init__(self, params, lets, result):
+        self.params, self.lets, self.result = params, lets, result
+
+
+_TOK = re.compile(r"\s*(?:(\d[\d_]*)(?:usize|u64|u32)?|([A-Za-z_][A-Za-z0-9_:<>]*(?:\(\))?)|(.))")
+
+
+def arith_expr(expr, known, where):
+    """translate `+ - * /`, parentheses, integer literals, identifiers and `as <int type>` casts; every identifier must
+    be in `known` (parameters, earlier lets, constants); anything else fails (the translator refuses to guess)"""
+    expr = re.sub(r"\bas\s+(usize|u64|u32|i32|i64)\b", "", expr)
+    expr = re.sub(r"(?:std::mem::)?size_of::<u64>\(\)", "8", expr)
+    expr = re.sub(r"(?:std::mem::)?size_of::<u32>\(\)", "4", expr)
+    out = []
+    pos = 0
+    while pos < len(expr):
+        m = _TOK.match(expr, pos)
+        if not m:
+            break
+        pos = m.end()
+        num, ident, sym = m.groups()
+        if num is not None:
+            out.append(num.replace('_', ''))
+        elif ident is not None:
+            ident = ident.split('::')[-1]
+            if ident not in known:
+                raise Fail(f'{where}: unknown identifier `{ident}` in `{expr.strip()}`')
+            out.append(ident)
+        elif sym in '+-*/()':
+            out.append(sym)
+        elif sym.strip() == '':
+            continue
+        else:
+            raise Fail(f'{where}: unsupported token `{sym}` in `{expr.strip()}`')
+    return ' '.join(out).replace('( ', '(').replace(' )', ')')
+
+
+def arith_fn(src, name, where, extern=None, consts=()):
+    """`fn name(a: usize, ..) -> .. { let x = e; ...; e }` (optionally `Ok(e)`) -> LeanFn.  `extern` maps a let whose
+    right-hand side is a call the translator does not look into (e.g. `NodeMeta::serialized_size_default()`) to a
+    parameter of the Lean definition: the pattern must match or the translation fails"""
+    extern = extern or {}
+    m = re.search(r"\bfn\s+" + name + r"\s*(?:<[^>]*>)?\s*\(([^)]*)\)", src)
+    if not m:
+        raise Fail(f'fn {name} not found {where}')
+    params = [a.split(':')[0].strip() for a in m.group(1).split(',') if a.strip() and not a.strip().startswith(('&self', 'self'))]
+    body = fn_body(src, name, where)
+    stmts = [x.strip() for x in body.split(';')]
+    result = stmts.pop()
+    known = set(params) | set(consts)
+    lets = []
+    extra = []
+    for st in stmts:
+        if not st:
+            continue
+        lm = re.fullmatch(r"let\s+([a-z_][a-z0-9_]*)\s*(?::\s*\w+)?\s*=\s*(.+)", st, re.S)
+        if not lm:
+            raise Fail(f'fn {name}: statement not recognised: `{st}`')
+        var, rhs = lm.group(1), ' '.join(lm.group(2).split())
+        hit = None
+        for pat, pname in extern.items():
+            if re.fullmatch(pat, rhs):
+                hit = pname
+        if hit:
+            if hit not in extra:
+                extra.append(hit)
+            known.add(hit)
+            lets.append((var, hit))
+        else:
+            lets.append((var, arith_expr(rhs, known, f'fn {name}')))
+        known.add(var)
+    rm = re.fullmatch(r"Ok\((.*)\)", result.strip(), re.S)
+    if rm:
+        result = rm.group(1)
+    return LeanFn(list(consts) + params + extra, lets, arith_expr(result, known, f'fn {name}'))
+
+
 def lean_val(v):
     if isinstance(v, bool):
         return 'true' if v else 'false'
@@ -282,7 +372,14 @@ def lean_type(v):
 def render(g, namespace, header):
     lines = [header, f'namespace {namespace}', '']
     for k in sorted(g):
-        lines.append(f'def {k} : {lean_type(g[k])} := {lean_val(g[k])}')
+        v = g[k]
+        if isinstance(v, LeanFn):
+            lines.append(f'def {k} ' + ' '.join(f'({q} : Nat)' for q in v.params) + ' : Nat :=')
+            for var, e in v.lets:
+                lines.append(f'  let {var} := {e}')
+            lines.append(f'  {v.result}')
+        else:
+            lines.append(f'def {k} : {lean_type(v)} := {lean_val(v)}')
     lines += ['', f'end {namespace}', '']
     return '\n'.join(lines)
 
